@@ -220,6 +220,169 @@ fn run_history(r: &mut Rng, k: u64, model: &mut model::Model, rep: &mut Report) 
     rep.sample(serde_json::json!({"history": db.log.iter().take(10).collect::<Vec<_>>() }));
 }
 
+// ---------------------------------------------------------------------------------------------
+// junction tables: children with two foreign keys (to different parents in either declaration
+// order, or both to the same parent), optionally a grandchild of the junction
+// ---------------------------------------------------------------------------------------------
+
+struct FkSpec {
+    child: usize,
+    col: usize,
+    parent: usize,
+    action: usize,
+}
+
+const JT: [&str; 4] = ["A", "B", "LINK", "G"];
+
+fn jscan(db: &Db, n: usize) -> Vec<Vec<Vec<SqlValue>>> {
+    (0..n).map(|i| db.scan(JT[i]).unwrap_or_default()).collect()
+}
+
+/// per foreign key: child rows whose non-NULL key is not a parent key
+fn jorphans(tabs: &[Vec<Vec<SqlValue>>], fks: &[FkSpec]) -> Vec<String> {
+    let mut bad = vec![];
+    for f in fks {
+        for o in orphans(&tabs[f.child], f.col, Some(&tabs[f.parent]), 0) {
+            bad.push(format!("{}{} (column {}) has no {} row", JT[f.child], o, f.col, JT[f.parent]));
+        }
+    }
+    bad
+}
+
+fn jfks_sx(fks: &[FkSpec]) -> String {
+    fks.iter().map(|f| format!("({} {} ({}) (0) {})", f.child, f.parent, f.col, ACTIONS[f.action].1)).collect::<Vec<_>>().join(" ")
+}
+
+fn jtabs_sx(tabs: &[Vec<Vec<SqlValue>>]) -> String {
+    tabs.iter().map(|t| canon::rows_seq(t)).collect::<Vec<_>>().join(" ")
+}
+
+fn run_junction(r: &mut Rng, k: u64, fixed: Option<(usize, usize, bool, Vec<String>)>, model: &mut model::Model, rep: &mut Report) {
+    // parents of LINK.X and LINK.Y: (A,B), (B,A) or (A,A)
+    let (px, py, with_g) = match &fixed {
+        Some((x, y, g, _)) => (*x, *y, *g),
+        None => {
+            let (x, y) = [(0, 1), (1, 0), (0, 0), (1, 1)][r.below(4) as usize];
+            (x, y, r.chance(1, 2))
+        }
+    };
+    let (ax, ay, ag) = (r.below(3) as usize, r.below(3) as usize, r.below(3) as usize);
+    let mut fks = vec![FkSpec { child: 2, col: 1, parent: px, action: ax }, FkSpec { child: 2, col: 2, parent: py, action: ay }];
+    let ntab = if with_g { 4 } else { 3 };
+    let mut db = Db::new();
+    db.must("CREATE TABLE A (ID INT PRIMARY KEY, V INT)");
+    db.must("CREATE TABLE B (ID INT PRIMARY KEY, V INT)");
+    db.must(&format!(
+        "CREATE TABLE LINK (ID INT PRIMARY KEY, X INT, Y INT, FOREIGN KEY (X) REFERENCES {} (ID) ON DELETE {}, FOREIGN KEY (Y) REFERENCES {} (ID) ON DELETE {})",
+        JT[px], ACTIONS[ax].0, JT[py], ACTIONS[ay].0
+    ));
+    if with_g {
+        db.must(&format!("CREATE TABLE G (ID INT PRIMARY KEY, LID INT, FOREIGN KEY (LID) REFERENCES LINK (ID) ON DELETE {})", ACTIONS[ag].0));
+        fks.push(FkSpec { child: 3, col: 1, parent: 2, action: ag });
+    }
+    rep.count(&format!("junction_parents_{}{}{}", JT[px], JT[py], if with_g { "_with_grandchild" } else { "" }));
+    let val = |r: &mut Rng| if r.chance(1, 6) { "NULL".to_string() } else { r.range(1, 4).to_string() };
+    let script: Vec<String> = match &fixed {
+        Some((_, _, _, s)) => s.clone(),
+        None => (0..(10 + r.below(8)))
+            .map(|_| match r.below(100) {
+                0..=13 => format!("INSERT INTO A VALUES ({}, 0), ({}, 0)", r.range(1, 4), r.range(1, 4) + 4),
+                14..=27 => format!("INSERT INTO B VALUES ({}, 0), ({}, 0)", r.range(1, 4), r.range(1, 4) + 4),
+                28..=49 => format!("INSERT INTO LINK VALUES ({}, {}, {}), ({}, {}, {})", r.range(1, 6), val(r), val(r), r.range(7, 12), val(r), val(r)),
+                50..=57 if with_g => format!("INSERT INTO G VALUES ({}, {})", r.range(1, 9), if r.chance(1, 5) { "NULL".to_string() } else { r.range(1, 12).to_string() }),
+                50..=57 => format!("INSERT INTO LINK VALUES ({}, {}, {})", r.range(1, 12), val(r), val(r)),
+                58..=64 => format!("DELETE FROM A WHERE ID = {}", r.range(1, 4)),
+                65..=71 => format!("DELETE FROM B WHERE ID >= {}", r.range(1, 4)),
+                72..=75 => format!("UPDATE LINK SET X = {} WHERE ID = {}", val(r), r.range(1, 12)),
+                76..=79 => format!("UPDATE LINK SET Y = {} WHERE ID <= {}", val(r), r.range(1, 12)),
+                80..=82 => format!("UPDATE {} SET ID = {} WHERE ID = {}", JT[r.below(2) as usize], r.range(1, 8), r.range(1, 4)),
+                83..=86 => format!("TRUNCATE TABLE {} CASCADE", JT[r.below(2) as usize]),
+                87..=89 => format!("TRUNCATE TABLE {}", JT[r.below(3) as usize]),
+                90..=91 => "TRUNCATE TABLE LINK CASCADE".to_string(),
+                92..=95 => format!("DELETE FROM {}", JT[r.below(2) as usize]),
+                _ => format!("DELETE FROM LINK WHERE ID <= {}", r.range(1, 6)),
+            })
+            .collect(),
+    };
+    let (mut accepted, mut rejected) = (0, 0);
+    for sql in &script {
+        let before = jscan(&db, ntab);
+        let out = db.exec(sql);
+        let after = jscan(&db, ntab);
+        let words: Vec<&str> = sql.split_whitespace().collect();
+        rep.count(&format!("junction_stmt_{}_{}", words[0].to_lowercase(), if sql.contains("CASCADE") { "cascade" } else { words[2].to_lowercase().as_str().to_owned().leak() }));
+        if out.is_ok() { accepted += 1 } else { rejected += 1 }
+        let bad = jorphans(&after, &fks);
+        if out.is_panic() || !bad.is_empty() {
+            rep.fail(FailKind::Oracle, None, &format!("orphan row after a {} {} statement on a schema with a two-key child", words[0], if sql.contains("CASCADE") { "CASCADE" } else { "" }),
+                &format!("{}\n=> {}\norphans: {:?}", db.log.join(";\n"), out.brief(), bad));
+            break;
+        }
+        // correspondence: TRUNCATE … CASCADE and parent DELETEs against the model
+        let tnum = |name: &str| JT.iter().position(|t| *t == name);
+        let req = if words[0] == "TRUNCATE" && sql.contains("CASCADE") {
+            tnum(words[2]).map(|t| format!("trunc (fks {}) (tables {}) {}", jfks_sx(&fks), jtabs_sx(&before), t))
+        } else if words[0] == "DELETE" && (words[2] == "A" || words[2] == "B") {
+            let t = tnum(words[2]).unwrap();
+            let ids: Vec<String> = before[t]
+                .iter()
+                .filter_map(|p| if let SqlValue::Integer(i) = p[0] { Some(i) } else { None })
+                .filter(|i| if words.len() <= 3 { true } else if words[5] == "=" { *i == words[6].parse::<i64>().unwrap() } else { *i >= words[6].parse::<i64>().unwrap() })
+                .map(|i| format!("I{}", i))
+                .collect();
+            Some(format!("casc (fks {}) (tables {}) {} (sel {})", jfks_sx(&fks), jtabs_sx(&before), t, ids.join(" ")))
+        } else {
+            None
+        };
+        if let Some(req) = req {
+            let reply = model.ask(&req);
+            let code = if out.is_ok() { format!("(ok {})", jtabs_sx(&after)) } else { "(reject)".to_string() };
+            // an empty DELETE FROM t without referencing rows may take the truncate fast path: same result
+            if reply != code && !(reply == "(cycle)" && !out.is_ok()) {
+                rep.fail(FailKind::ModelDiff, None, &format!("model and code disagree on `{} {} …` with a two-key child", words[0], words[1]),
+                    &format!("{}\nmodel request: {}\ncode: {}\nmodel: {}", db.log.join(";\n"), req, code, reply));
+                break;
+            }
+            rep.traces_validated += 1;
+        }
+    }
+    rep.case(&format!("junction{} {}", k, db.log.join(";")), accepted > 0 && (rejected > 0 || fixed.is_some()));
+}
+
+fn junction_probes(model: &mut model::Model, rep: &mut Report) {
+    let mut r = Rng::new(7);
+    let fill = vec![
+        "INSERT INTO A VALUES (1, 0), (2, 0)".to_string(),
+        "INSERT INTO B VALUES (1, 0), (2, 0)".to_string(),
+        "INSERT INTO LINK VALUES (1, 1, 1), (2, 1, 2), (3, NULL, 2), (4, 2, NULL)".to_string(),
+    ];
+    let mut k = 900000;
+    for (px, py) in [(0usize, 1usize), (1, 0), (0, 0), (1, 1)] {
+        for with_g in [false, true] {
+            for tail in [
+                vec!["TRUNCATE TABLE B CASCADE"],
+                vec!["TRUNCATE TABLE A CASCADE"],
+                vec!["TRUNCATE TABLE A", "TRUNCATE TABLE B RESTRICT", "TRUNCATE TABLE LINK CASCADE", "TRUNCATE TABLE A"],
+                vec!["DELETE FROM B WHERE ID = 2", "DELETE FROM A WHERE ID >= 1"],
+                vec!["DELETE FROM B", "DELETE FROM A"],
+                vec!["UPDATE B SET ID = 9 WHERE ID = 2", "UPDATE A SET ID = 9 WHERE ID = 1", "UPDATE LINK SET Y = 7 WHERE ID = 1"],
+            ] {
+                // several action draws per shape
+                for _ in 0..3 {
+                    let mut s = fill.clone();
+                    if with_g {
+                        s.push("INSERT INTO G VALUES (1, 1), (2, 3), (3, NULL)".into());
+                    }
+                    s.extend(tail.iter().map(|x| x.to_string()));
+                    run_junction(&mut r, k, Some((px, py, with_g, s)), model, rep);
+                    rep.count("junction_probes");
+                    k += 1;
+                }
+            }
+        }
+    }
+}
+
 fn self_ref_db() -> Db {
     let mut db = Db::new();
     db.must("CREATE TABLE T (ID INT PRIMARY KEY, PID INT)");
@@ -372,9 +535,14 @@ fn main() {
     let mut rng = Rng::new(args.seed);
     probes(&mut model, &mut rep);
     cycle_probe(&mut rep);
+    junction_probes(&mut model, &mut rep);
     for k in 0..args.n(20000, 400000) {
         let mut r = rng.fork();
         run_history(&mut r, k, &mut model, &mut rep);
+    }
+    for k in 0..args.n(8000, 160000) {
+        let mut r = rng.fork();
+        run_junction(&mut r, k, None, &mut model, &mut rep);
     }
     rep.assumptions.push("foreign keys reference the parent's PRIMARY KEY, single column, declared at table level".into());
     rep.extra.insert("model_requests".into(), serde_json::json!(model.requests));
